@@ -913,6 +913,22 @@ fn field_of(err: &str) -> String {
         }
         return "structure.pattern".into();
     }
+    // a value the TOML / serde layer rejects (wrong type, negative for an unsigned setting): the
+    // diagnostic quotes the offending source line, `NN | key = value`, which names the setting
+    if m.contains("TOML parse error") {
+        for l in m.lines() {
+            if let Some((num, rest)) = l.split_once(" | ") {
+                if !num.trim().is_empty() && num.trim().chars().all(|c| c.is_ascii_digit()) {
+                    if let Some((key, _)) = rest.split_once('=') {
+                        let key = key.trim();
+                        if !key.is_empty() && key.chars().all(|c| c.is_ascii_alphanumeric() || c == '_' || c == '.' || c == '-') {
+                            return format!("toml:{key}");
+                        }
+                    }
+                }
+            }
+        }
+    }
     format!("unrecognised:{}", m.lines().next().unwrap_or("").chars().take(80).collect::<String>())
 }
 
